@@ -15,6 +15,7 @@ import (
 	"fmt"
 	"go/token"
 	"go/types"
+	"sort"
 	"strings"
 
 	"golang.org/x/tools/go/ssa"
@@ -196,4 +197,120 @@ func (ex *Exec) goOwnsScan(fname string, st *State) {
 		}
 		ex.prove(fname, st, "goroutineowns", name, goal, text, fn.Pos())
 	}
+}
+
+// writesthrough <captured variables>: the worker literal stores only into storage it reaches through these captured
+// variables (and into its own locals and allocations). A scratch buffer or a scope hoisted out of the worker into the
+// enclosing function becomes a captured variable the worker writes through - shared by every worker - and is reported.
+// Static scan of the literal's own instructions (obligation kind writesthrough): for every store, append-assignment target,
+// map update and copy destination the address chain (field, index, slice, load) is followed back to its root.
+func (ex *Exec) writesThroughScan(fname string, st *State) {
+	if ex.topC == nil || ex.topC.WritesThrough == nil || ex.topFn == nil {
+		return
+	}
+	fn := ex.topFn
+	allowed := map[string]bool{}
+	for _, n := range ex.topC.WritesThrough {
+		allowed[n] = true
+	}
+	for n := range allowed {
+		found := false
+		for _, v := range fn.FreeVars {
+			if v.Name() == n {
+				found = true
+			}
+		}
+		if !found {
+			ex.eng.bindingErrors = append(ex.eng.bindingErrors, fmt.Sprintf("%s: writesthrough %s: not a captured variable", fname, n))
+		}
+	}
+	var root func(v ssa.Value, depth int) *ssa.FreeVar
+	root = func(v ssa.Value, depth int) *ssa.FreeVar {
+		if depth > 40 {
+			return nil
+		}
+		switch x := v.(type) {
+		case *ssa.FreeVar:
+			return x
+		case *ssa.FieldAddr:
+			return root(x.X, depth+1)
+		case *ssa.IndexAddr:
+			return root(x.X, depth+1)
+		case *ssa.Field:
+			return root(x.X, depth+1)
+		case *ssa.Index:
+			return root(x.X, depth+1)
+		case *ssa.Slice:
+			return root(x.X, depth+1)
+		case *ssa.UnOp:
+			if x.Op.String() == "*" {
+				return root(x.X, depth+1)
+			}
+		case *ssa.ChangeType:
+			return root(x.X, depth+1)
+		case *ssa.Convert:
+			return root(x.X, depth+1)
+		case *ssa.Phi:
+			for _, e := range x.Edges {
+				if r := root(e, depth+1); r != nil {
+					return r
+				}
+			}
+		}
+		return nil
+	}
+	bad := map[string]string{}
+	note := func(addr ssa.Value, direct bool, in ssa.Instruction) {
+		fv := root(addr, 0)
+		if fv == nil {
+			return
+		}
+		if direct {
+			// assignment to the captured variable itself
+			if a, ok := addr.(*ssa.FreeVar); ok && a == fv {
+				if !allowed[fv.Name()] {
+					bad[fv.Name()] = ex.eng.fset.Position(in.Pos()).String()
+				}
+				return
+			}
+		}
+		if !allowed[fv.Name()] {
+			if _, seen := bad[fv.Name()]; !seen {
+				bad[fv.Name()] = ex.eng.fset.Position(in.Pos()).String()
+			}
+		}
+	}
+	for _, b := range fn.Blocks {
+		for _, in := range b.Instrs {
+			switch i := in.(type) {
+			case *ssa.Store:
+				note(i.Addr, true, in)
+			case *ssa.MapUpdate:
+				note(i.Map, false, in)
+			case *ssa.Call:
+				if bi, ok := i.Call.Value.(*ssa.Builtin); ok {
+					switch bi.Name() {
+					case "copy", "delete", "clear":
+						note(i.Call.Args[0], false, in)
+					}
+				}
+			}
+		}
+	}
+	var names []string
+	for n := range bad {
+		names = append(names, n)
+	}
+	sort.Strings(names)
+	goal := True
+	text := "the worker stores only into its own locals and allocations and through the captured variables " + strings.Join(ex.topC.WritesThrough, ", ")
+	if len(names) > 0 {
+		goal = False
+		var parts []string
+		for _, n := range names {
+			parts = append(parts, n+" ("+bad[n]+")")
+		}
+		text += " - VIOLATED: it also stores through " + strings.Join(parts, ", ")
+	}
+	ex.prove(fname, st, "writesthrough", strings.Join(ex.topC.WritesThrough, ","), goal, text, fn.Pos())
 }
